@@ -5,6 +5,7 @@ import (
 	"go/token"
 	"go/types"
 	"math/big"
+	"strings"
 
 	"golang.org/x/tools/go/ssa"
 )
@@ -143,6 +144,28 @@ func (g *FuncGen) execAlloc(x *ssa.Alloc) {
 
 func (g *FuncGen) assumeZeroStruct(ref string, t types.Type) {
 	st, _ := isStruct(t)
+	// scalar ghost fields of a freshly allocated object start at zero / false / nil
+	if named, ok := t.(*types.Named); ok {
+		for _, sf := range g.env.Specs {
+			for _, gf := range sf.Ghosts {
+				local := named.Obj().Name() == gf.Struct && (named.Obj().Pkg() == nil || named.Obj().Pkg().Path() == sf.PkgPath)
+				qualified := strings.Contains(gf.Struct, ".") && typeName(t) == gf.Struct
+				if !(local || qualified) {
+					continue
+				}
+				cx := g.newSpecCtx(g.st, g.st)
+				key, gt, special, ok := cx.ghostField(t, gf.Name)
+				if !ok || special != "" {
+					continue
+				}
+				zero := "0"
+				if gt != nil {
+					zero = g.sc.zero(gt)
+				}
+				g.assume(fmt.Sprintf("(= (select %s %s) %s)", g.get(g.st, key), ref, zero))
+			}
+		}
+	}
 	for i := 0; i < st.NumFields(); i++ {
 		ft := st.Field(i).Type()
 		if _, ok := isStruct(ft); ok {
